@@ -111,12 +111,12 @@ def _chunk(chunk):
 def run(ctx):
     x = exe()
     bound = ctx.q(2, 3)
-    cap = ctx.q(15000, 300000)
+    cap = ctx.q(15000, 40000)
     jobs = []
     nshard = ctx.q(4, 8)
     deep = {"A,B", "A,X", "A,a"}     # quick: the full preemption bound on three scenarios, one less on the others
     for sc in scenarios(ctx.thorough):
-        for prefill in ((14,) if not ctx.thorough else (14, 29, 0)):
+        for prefill in ((14,) if not ctx.thorough else (14, 29)):
             b = bound if (ctx.thorough or sc in deep) else bound - 1
             ns = nshard if b == bound else 1
             for sh in range(ns):
@@ -132,5 +132,5 @@ def run(ctx):
                 "R/r/T/S likewise for resource providers) + a reader doing 2 passes of count/by-slot/by-name, prefill %s, all schedules "
                 "with <=%d preemptions (quick: that bound on A,B / A,X / A,a, one less on the other scenarios); E2: all 9^d sequential histories for d<=%d. states = distinct schedule prefixes + sequential "
                 "histories; every execution runs the real code (traces_validated)" %
-                (scenarios(ctx.thorough), "14/29/0" if ctx.thorough else "14", bound, depth))
+                (scenarios(ctx.thorough), "14/29" if ctx.thorough else "14", bound, depth))
     ctx.assumptions = ["sequentially consistent atomics", "cap %d executions per scenario (reported if hit)" % cap]
